@@ -32,7 +32,10 @@ RULE = (
     "(both directions), masks_compatible and a real Output >> Input exchange (bare and via Composition.connect); "
     "SEQUENCES on one re-used Info object (prepare flat/shaped/time-axis interleaved with info.grid = other order / "
     "layout, info.mask = ..., copy_with, copy.copy, Info.accepts): every prepare must equal the result under a fresh "
-    "Info with the current fields and the model evaluated on the current fields; OBJECT SHARING: the very same mask "
+    "Info with the current fields and the model evaluated on the current fields; REFUSED assignments (info.mask = / "
+    "copy_with(mask=) with a mask of the wrong shape: transposed, flat, with time axis, other size) inside sequences and "
+    "on one side before an accepts / exchange: must raise FinamMetaDataError and leave the info exactly as it was; "
+    "OBJECT SHARING: the very same mask "
     "ndarray on both sides (one array passed to two Infos, copy_with(grid=other layout), copy.copy + grid assignment) "
     "on square and non-square grids whose layouts differ in axes_increase / axes_reversed; "
     "non-trivial = partial mask (neither empty nor full) for round-trip/prepare cases, two explicit masks on "
@@ -526,6 +529,34 @@ def _seq_gridk(rng, shape):
     return rng.choice(ks)
 
 
+def _bad_mask(rng, shape):
+    """an explicit mask whose shape is NOT the data shape [shape]: the Info.mask setter must refuse it"""
+    n = _size(shape)
+    cands = [list(reversed(shape)), [n], [1] + list(shape), list(shape) + [1], [shape[0] + 1] + list(shape[1:]),
+             [max(1, n - 1)], list(shape[1:]) or [n + 1]]
+    cands = [c for c in cands if list(c) != list(shape)]
+    sh = rng.choice(cands)
+    return {"shape": sh, "bits": [rng.random() < 0.5 for _ in range(_size(sh))]}
+
+
+def _grid_data_shape(g, dims):
+    if g is None:
+        return None
+    if g["kind"] == "nogrid":
+        return list(g["shape"])
+    return list(reversed(dims)) if (g["rev"] and len(dims) > 1) else list(dims)
+
+
+def _add_pre_bad(rng, case):
+    """before the acceptance check one side goes through a REFUSED mask assignment (info.mask = wrong shape)"""
+    ka, kb = ("sg", "ig") if case["k"] == "accept" else ("og", "ig")
+    sides = [(side, case[k]) for side, k in (("a", ka), ("b", kb)) if case[k] is not None]
+    if not sides or case.get("share"):
+        return case
+    side, g = rng.choice(sides)
+    return dict(case, pre_bad={"side": side, "mask": _bad_mask(rng, _grid_data_shape(g, case["dims"]))})
+
+
 def _gen_seq(rng, ncases):
     """one re-used Info object: prepare / attribute assignment / copy_with / copy / accepts interleaved"""
     cases = []
@@ -553,13 +584,14 @@ def _gen_seq(rng, ncases):
                 cur_order = ("C" if cur_order == "F" else "F") if rng.random() < 0.75 else cur_order
                 ops.append(["set_grid", cur_order, _seq_gridk(rng, shape)])
             elif r < 0.80:
-                ops.append(["set_mask", rmask()])
+                ops.append(["set_mask", _bad_mask(rng, shape) if rng.random() < 0.45 else rmask()])
             elif r < 0.88:
                 g = None
                 if rng.random() < 0.6:
                     cur_order = rng.choice("CF")
                     g = [cur_order, _seq_gridk(rng, shape)]
-                ops.append(["copy_with", g, rmask() if rng.random() < 0.5 else None])
+                r2 = rng.random()
+                ops.append(["copy_with", g, _bad_mask(rng, shape) if r2 < 0.2 else (rmask() if r2 < 0.6 else None)])
             elif r < 0.92:
                 ops.append(["copy"])
             elif r < 0.96:
@@ -573,6 +605,10 @@ def _gen_seq(rng, ncases):
             for op in ops:
                 if op[0] == "prepare" and rng.random() < 0.7:
                     op[2] = [mv if rng.random() < 0.3 else v for v in op[2]]
+        if j % 3 == 2:  # a refused assignment, then the info is used again
+            ops.append(["set_mask", _bad_mask(rng, shape)])
+            ops.append(["prepare", rng.choice(["flat", "shaped", "timed"]), _vals(rng, n), rng.random() < 0.3])
+            ops.append(["accepts", rmask(), rng.random() < 0.5])
         if j % 3 == 0:  # make sure the tail is a flat prepare after a change of the memory order
             cur_order = "C" if cur_order == "F" else "F"
             ops.append(["set_grid", cur_order, _seq_gridk(rng, shape)])
@@ -605,6 +641,18 @@ CORPUS = [
      "im": _M([3, 2], [1, 1, 0, 0, 0, 0]), "grid": "cells", "quant": False},
     {"k": "prepare", "shape": [2, 2, 2], "order": "F", "form": "flat", "vals": list(range(8)), "own": None,
      "im": _M([2, 2, 2], [1, 0, 0, 0, 0, 0, 1, 1]), "grid": "points", "quant": True},
+    # seeded mutant C18_l: the mask setter stores before it validates; a REFUSED assignment must leave the info as it was
+    {"k": "seq", "shape": [3, 2], "init": {"order": "C", "gridk": "cells", "mask": _M([3, 2], [1, 1, 0, 0, 0, 0])},
+     "ops": [["set_mask", _M([2, 3], [0, 0, 1, 0, 0, 1])], ["prepare", "flat", [0, 1, 2, 3, 4, 5], False],
+             ["accepts", _M([3, 2], [1, 1, 0, 0, 0, 0]), False]]},
+    {"k": "seq", "shape": [2, 2], "init": {"order": "F", "gridk": "cells", "mask": "flex"},
+     "ops": [["set_mask", _M([4], [1, 0, 0, 1])], ["accepts", "none", False], ["copy_with", None, _M([1, 2, 2], [1, 0, 0, 0])],
+             ["prepare", "shaped", [1, 2, 3, 4], True]]},
+    {"k": "exchange", "om": _M([2, 3], [1, 0, 0, 0, 0, 0]), "og": _U(False, [True, True]),
+     "im": _M([2, 3], [1, 0, 0, 0, 0, 0]), "ig": _U(False, [True, True]), "dims": [2, 3], "via": "bare",
+     "pre_bad": {"side": "b", "mask": _M([3, 2], [0, 1, 0, 0, 0, 0])}},
+    {"k": "accept", "sm": "flex", "sg": _U(False, [True, True]), "im": "none", "ig": _U(False, [True, True]), "down": False,
+     "dims": [2, 2], "pre_bad": {"side": "a", "mask": _M([4], [1, 0, 0, 0])}},
     # seeded mutant C18_k: declared missing value masks cells first, the fixed-mask step is then skipped
     {"k": "prepare", "shape": [3, 2], "order": "C", "form": "shaped", "vals": [-9999, 1, 2, 3, 4, 5], "own": None,
      "im": _M([3, 2], [1, 1, 0, 0, 0, 0]), "grid": "cells", "quant": False,
@@ -664,7 +712,7 @@ def generate(rng, tier):
         cases += _gen_round_nonbool(rng, 480)
         cases += _gen_prepare(rng, QUICK_SHAPES, 16)
         cases += _gen_prepare_missing(rng, [sh for sh in QUICK_SHAPES if _size(sh) >= 2], 4)
-        cases += _gen_accept(rng, 700)
+        cases += [_add_pre_bad(rng, c) if i % 4 == 0 else c for i, c in enumerate(_gen_accept(rng, 700))]
         cases += _gen_accept_sweep([[2], [2, 2]])[::3]
         cases += _gen_seq(rng, 500)
         cases += _gen_shared(rng, 500)
@@ -675,7 +723,7 @@ def generate(rng, tier):
         cases += _gen_round_nonbool(rng, 6000)
         cases += _gen_prepare(rng, QUICK_SHAPES + THOROUGH_SHAPES, 40)
         cases += _gen_prepare_missing(rng, [sh for sh in QUICK_SHAPES + THOROUGH_SHAPES if _size(sh) >= 2], 40)
-        cases += _gen_accept(rng, 12000)
+        cases += [_add_pre_bad(rng, c) if i % 4 == 0 else c for i, c in enumerate(_gen_accept(rng, 12000))]
         cases += _gen_accept_sweep([[2], [3], [2, 2], [3, 2]])
         cases += _gen_seq(rng, 10000)
         cases += _gen_shared(rng, 8000)
@@ -855,12 +903,30 @@ def _info_pair(ma, ga, mb, gb, share, **kw):
     return a, b
 
 
+def _apply_pre_bad(c, a, b):
+    """one side goes through a refused mask assignment; returns None or a description of what went wrong"""
+    pb = c.get("pre_bad")
+    if not pb:
+        return None
+    info = a if pb["side"] == "a" else b
+    before = _obs_mask(info.mask)
+    try:
+        info.mask = _py_mask(pb["mask"])
+    except Exception as e:  # noqa
+        if err_class(e) != "MetaDataError":
+            return f"assigning a mask of the wrong shape raised {err_class(e)}"
+        after = _obs_mask(info.mask)
+        return None if after == before else f"refused mask assignment left state behind: mask {after}, before {before}"
+    return "a mask of the wrong shape was accepted by the Info.mask setter"
+
+
 def _run_accept(c):
     try:
         a, b = _info_pair(c["sm"], _py_grid(c["sg"], c["dims"]), c["im"], _py_grid(c["ig"], c["dims"]), c.get("share"),
                           time=None)
     except Exception as e:  # noqa
         return {"err": err_class(e)}
+    pre = _apply_pre_bad(c, a, b)
     shared = bool(isinstance(a.mask, np.ndarray) and a.mask is b.mask)
     fail = {}
     try:
@@ -869,14 +935,15 @@ def _run_accept(c):
     except Exception as e:  # noqa
         return {"err": err_class(e)}
     return {"mask_ok": "mask" not in fail, "compatible": bool(direct), "accepts": bool(ok),
-            "other_fail": sorted(k for k in fail if k != "mask"), "shared_object": shared}
+            "other_fail": sorted(k for k in fail if k != "mask"), "shared_object": shared, "pre_bad": pre}
 
 
 def _run_exchange(c):
     og, ig = _py_grid(c["og"], c["dims"]), _py_grid(c["ig"], c["dims"])
     oi, ii = _info_pair(c["om"], og, c["im"], ig, c.get("share"), time=T(0), units="m")
+    pre = _apply_pre_bad(c, oi, ii)
     if c["via"] == "comp" and c["om"] != "unset" and og is not None:
-        return _run_exchange_comp(c, oi, ii)
+        return dict(_run_exchange_comp(c, oi, ii), pre_bad=pre)
     out = fm.Output(name="Out")
     inp = fm.Input(name="In")
     out >> inp
@@ -885,8 +952,8 @@ def _run_exchange(c):
     try:
         inp.exchange_info(ii)
     except Exception as e:  # noqa
-        return {"res": ["err", err_class(e)], "via": "bare"}
-    return {"res": ["ok", _obs_mask(inp.info.mask)], "out_mask": _obs_mask(out.info.mask), "via": "bare"}
+        return {"res": ["err", err_class(e)], "via": "bare", "pre_bad": pre}
+    return {"res": ["ok", _obs_mask(inp.info.mask)], "out_mask": _obs_mask(out.info.mask), "via": "bare", "pre_bad": pre}
 
 
 def _run_exchange_comp(c, oi, ii):
@@ -957,11 +1024,13 @@ def _run_seq(c):
                 kw = {}
                 if op[1] is not None:
                     kw["grid"] = _seq_grid(shape, op[1][0], op[1][1])
-                    cur["order"], cur["gridk"] = op[1]
                 if op[2] is not None:
                     kw["mask"] = _py_mask(op[2])
-                    cur["mask"] = op[2]
                 info = info.copy_with(**kw)
+                if op[1] is not None:
+                    cur["order"], cur["gridk"] = op[1]
+                if op[2] is not None:
+                    cur["mask"] = op[2]
                 steps.append(["none"])
             elif op[0] == "copy":
                 info = _copy.copy(info)
@@ -977,7 +1046,8 @@ def _run_seq(c):
                 info.accepts(other, fail, incoming_donwstream=op[2])
                 steps.append(["acc", "mask" not in fail])
         except Exception as e:  # noqa
-            steps.append(["err", err_class(e)])
+            # the info as it is after the failed call (a refused call must leave it unchanged)
+            steps.append(["err", err_class(e), _obs_mask(info.mask)])
     return {"steps": steps, "final_mask": _obs_mask(info.mask)}
 
 
@@ -1080,8 +1150,10 @@ def coq_obs(case, obs):
     k = case["k"]
     if k == "seq":
         out = []
-        for st in obs["steps"]:
-            if st[0] == "prep":
+        for op, st in zip(case["ops"], obs["steps"]):
+            if st[0] == "err" and st[1] == "MetaDataError" and op[0] in ("set_mask", "copy_with"):
+                out.append("SRefused")
+            elif st[0] == "prep":
                 o = st[1]
                 if "err" in o:
                     return C("OOther", N(4))
@@ -1185,6 +1257,8 @@ def _mon_prepare(c, o):
 def _mon_accept(c, o):
     if "err" in o:
         return f"Info.accepts / masks_compatible raised {o['err']}"
+    if o.get("pre_bad"):
+        return o["pre_bad"]
     if c["down"]:
         cons, prod, cg, pg = c["im"], c["sm"], c["ig"], c["sg"]
     else:
@@ -1199,6 +1273,8 @@ def _mon_accept(c, o):
 
 
 def _mon_exchange(c, o):
+    if o.get("pre_bad"):
+        return o["pre_bad"]
     r = o["res"]
     om, im, og, ig = c["om"], c["im"], c["og"], c["ig"]
     if og is None and ig is None:
@@ -1231,6 +1307,15 @@ def _mon_exchange(c, o):
 def _mon_seq(c, o):
     cur = dict(c["init"])
     for i, (op, st) in enumerate(zip(c["ops"], o["steps"])):
+        newmask = op[1] if op[0] == "set_mask" else (op[2] if op[0] == "copy_with" else None)
+        bad = _is_bits(newmask) and list(newmask["shape"]) != list(c["shape"])
+        if bad:
+            if st[0] != "err" or st[1] != "MetaDataError":
+                return f"step {i}: a mask of shape {newmask['shape']} was not refused on a grid with data shape {c['shape']}"
+            if st[2] != cur["mask"]:
+                return (f"step {i}: the refused mask assignment left state behind: info.mask is now {st[2]}, "
+                        f"before the refused call it was {cur['mask']}")
+            continue
         if st[0] == "err":
             return f"step {i} {op[0]} raised {st[1]}"
         if op[0] == "prepare":
@@ -1268,7 +1353,7 @@ def _mon_seq(c, o):
             if st[1] != exp_ok:
                 return f"step {i}: Info.accepts mask verdict {st[1]}, expected {exp_ok}"
     if o["final_mask"] != cur["mask"]:
-        return "the info's mask field differs from the last assigned mask"
+        return "the info's mask field differs from the last successfully assigned mask"
     return None
 
 
